@@ -356,9 +356,27 @@ def evaluate_replay(chk, tier, cases, recs):
 MAX_REPLAYS = 25        # violations written out in full; the rest are only counted
 
 
-def judge(chk, cases, recs, vreq, vasw):
+def recheck(build, cands):
+    """DESIGN.md 4.3: a rejection that is not the documented as-written behaviour is reported only if it
+    repeats.  Re-render, re-compile and re-evaluate the candidates (with their base layouts); returns
+    {case id: (required verdict, as-written verdict, observations)} of the second execution."""
+    recs, back = [], {}
+    for n, c in enumerate(cands):
+        base, again, two = _one_case(build, c["spec"], cid=2 * n + 1)
+        recs += two
+        back[c["id"]] = (2 * n + 2, again)
+    vreq, _ = trace_eval(recs, "TraceSrcPosReq", 2)
+    vasw, _ = trace_eval(recs, "TraceSrcPosAsw", 2)
+    return {cid: (vreq[i], vasw[i], again["obs"]) for cid, (i, again) in back.items()}
+
+
+def judge(chk, cases, recs, vreq, vasw, build=None):
     nbad = 0
     classes = {}
+    # second execution of the first unexpected rejections (harness flakiness must not raise an alarm)
+    odd = [c for c in cases if c["id"] in vreq and c["id"] in vasw and not vreq[c["id"]]["match"] and not vasw[c["id"]]["match"]]
+    second = recheck(build, odd[:MAX_REPLAYS]) if (odd and build) else {}
+    flaky = []
     for c, rec in zip(cases, recs):
         cid = c["id"]
         if cid not in vreq or cid not in vasw:
@@ -366,6 +384,12 @@ def judge(chk, cases, recs, vreq, vasw):
                 continue        # not evaluated: TLC stopped at an invariant violation reported above
             raise vlib.MachineryError("no TLC verdict for case %d (%s)" % (cid, c["label"]))
         vr, va = vreq[cid], vasw[cid]
+        if cid in second:
+            vr2, va2, obs2 = second[cid]
+            if vr2["match"] or va2["match"]:
+                flaky.append({"case": c["label"], "first": rec["obs"], "second": [{a: o[a] for a in ("mk", "file", "line", "ln", "col")} for o in obs2]})
+            vr, va = vr2, va2
+            c = dict(c, obs=obs2)
         faults = c["famkey"]
         nontrivial = vr["nplanted"] > 0
         chk.case((c["famkey"], c["layout"], json.dumps(c["kw"], sort_keys=True)), nontrivial=nontrivial)
@@ -394,6 +418,7 @@ def judge(chk, cases, recs, vreq, vasw):
             nbad += 1
     chk.extra["mismatch_classes"] = dict(list(classes.items())[:40])
     chk.extra["new_violations_total"] = nbad
+    chk.extra["not_repeated_on_second_execution"] = flaky[:10]
     return nbad
 
 
@@ -435,7 +460,7 @@ def run(chk, tier):
         run_apalache(chk, tier)
         prep = prepare_replay(chk, tier, build)
     cases, recs, vreq, vasw = evaluate_replay(chk, tier, *prep)
-    judge(chk, cases, recs, vreq, vasw)
+    judge(chk, cases, recs, vreq, vasw, build)
     chk.rule = ("model: every reachable state of Include (files chosen line by line, <=3 files, <=12 lines, widths 2/3); "
                 "replay: one case per (fault family = planted fault lines with their columns) x (layout: same file / included / "
                 "nested include / #line / #line+name / #if branches / #line inside include / colliding #line names / EOF in #if) x "
